@@ -154,6 +154,12 @@ def tensor_cases(draw, tier):
         b, off = draw(symbolic_boxes(scan, k))
         layers.append([b, off])
         scan = scan[:off] + b["cod"] + scan[off + len(b["dom"]):]
+        if draw(st.integers(0, 2)) == 0 and len(scan) - len(b["cod"]) + len(
+                b["dom"]) <= 3:
+            # the same box again, daggered
+            layers.append([dict(b, dom=b["cod"], cod=b["dom"], dag=True),
+                           off])
+            scan = scan[:off] + b["dom"] + scan[off + len(b["cod"]):]
     inner = {"cls": "tensor", "dom": dom, "layers": layers}
     bubbled = len(dom) <= 1 and len(scan) <= 1 and draw(st.booleans())
     if bubbled:
